@@ -573,6 +573,15 @@ func c12RunStatic(c *check.C, cs c12StaticCase) (verifkit.Outcome, error) {
 	if meta.model != "" {
 		w.AddCleanup(snapstatetest.MockDeviceModel(ModelWithBase(meta.model)))
 	}
+	// the fake backend's ReadInfo reports every snap it has no special case for as an
+	// app; an installed revision of a kernel/base snap says what it is
+	w.AddCleanup(snapstate.MockSnapReadInfo(func(name string, si *snap.SideInfo) (*snap.Info, error) {
+		info, err := w.fakeBackend.ReadInfo(name, si)
+		if err == nil && name == cs.Snap {
+			info.SnapType = snap.Type(meta.typ)
+		}
+		return info, err
+	}))
 	st := w.state
 
 	// boot environment
@@ -642,6 +651,9 @@ func c12RunStatic(c *check.C, cs c12StaticCase) (verifkit.Outcome, error) {
 		}
 		if t.Kind() == "link-snap" && snapsup.InstanceName() == cs.Snap {
 			target = snapsup.Revision().N
+			if string(snapsup.Type) != meta.typ {
+				panic(fmt.Sprintf("HARNESS: the fixture presents %s as a snap of type %q, wanted %q", cs.Snap, snapsup.Type, meta.typ))
+			}
 		}
 		if t.Kind() != "discard-snap" {
 			continue
